@@ -17,6 +17,21 @@ COMMON_NOTE = ("Trusted: Coq kernel + vm_compute; the hand-written model (the th
                "unless the evidence says exhaustive. No axioms, no extraction. ")
 
 CLAIMED = {
+    "C01": {
+        "text": "PARTIAL. Proved (for all template data records, flag combinations, hand-written declaration lists and command "
+                "lines): the generated file's header has the required form, and at the level of declared/used names the files "
+                "shoot generates are well-formed with the package (no name declared twice incl. hand-written ones, no method/field "
+                "clash, every used name declared) under explicit decidable guards, compositionally for several types in one run; "
+                "the three open defect classes (enum -bit's undefined table, -opt -short collisions, unexported RestClient "
+                "interfaces) are refuted as general theorems. NOT proved: Go's type checker proper and gofmt, which are observed: "
+                "every run of the correspondence stream is compiled with its package (go build), gofmt -l'ed, and its declared "
+                "names compared inside Coq with the model's skeleton; the property itself (exit 0 => header, package clause, "
+                "gofmt-clean, compiles) is evaluated on every observation.",
+        "design_ref": "DESIGN.md section 8, C01",
+        "note": COMMON_NOTE + "Partial: the theorem is name-level; compilability beyond names is sampled by go build of every generated package.",
+        "technique": "Rocq proof of name-level well-formedness of the template skeletons + differential run (shoot, declsig, gofmt, go build) compared inside Coq",
+        "coq_targets": ["Properties/C01.vo", "Corr/GoWfCorr.vo"],
+    },
     "C20": {
         "text": "Theorems over all n >= 0 and all scripts (unbounded length, any status in Z): at most n+1 calls, "
                 "stop at the first acceptable attempt returning (that response, nil), otherwise exactly n+1 calls and "
